@@ -11,7 +11,7 @@ import (
 func TestMain(m *testing.M) { kit.Main(m, "C01") }
 
 func TestPrograms(t *testing.T) {
-	kit.Check(t, kit.Spec[prog.Program]{Sub: "prog", Quick: 1500, Thorough: 40000, Gen: GenProgram, Exec: Exec, Watchdog: 30 * time.Second})
+	kit.Check(t, kit.Spec[prog.Program]{Sub: "prog", Quick: 1500, Thorough: 80000, Gen: GenProgram, Exec: Exec, Watchdog: 30 * time.Second})
 }
 
 func TestReplay(t *testing.T) {
